@@ -1,5 +1,6 @@
 """C06: compile() accepts or rejects every string with a documented error only."""
 import itertools
+import re
 import json
 import random
 import warnings
@@ -57,7 +58,8 @@ def gen_patterns(rng, quick):
         for ctx in ['%s', '#%s', '.%s', '[%s]', '[a=%s]', '[a="%s"]', ":lang(%s)", ':-soup-contains("%s")', 'a%s', ':not(%s)', '%s|a',
                     ':--%s', '[a=%s', '"%s']:
             out.append(ctx % e)
-    out += ['[a="' + 'a' * 50, ':lang(' + 'aa,' * 30, '/*' + 'x' * 40, ':is(' * 30, ')' * 5, ':nth-child(' + '9' * 400 + 'n)',
+    out += [':nth-child(' + '1' * 5000 + ')', ':nth-child(n+' + '1' * 4301 + ')', ':nth-last-of-type(' + '9' * 4300 + 'n - ' + '7' * 4400 + ')',
+            '[a="' + 'a' * 50, ':lang(' + 'aa,' * 30, '/*' + 'x' * 40, ':is(' * 30, ')' * 5, ':nth-child(' + '9' * 400 + 'n)',
             'a' * 3000, ':nth-child(2n+' + '9' * 300 + ')']
     return out
 
@@ -66,6 +68,15 @@ def gen_customs(rng, quick):
     out = []
     names = [':--a', ':--b', ':--A', ':--\\61', ':--é', '--a', ':-a', ':--', ':--a b', ':--a\n', ':--1', ':--a\x00', 'x', '']
     defs = ['p', 'div > p', ':--a', ':--b', ':--b, :--a', 'p >', ':is(', '', ':--c', '\\110000', ':not(:--a)', ':--A p', '@x', '::y']
+    defs += [':--A', ':--B', ':--A, :--b', 'p:--B', ':--\\41 ', ':is(:--A)']
+    pats = [':--a', ':--b', 'p:--a', ':--a :--b', ':--A', ':--c', ':--\\61 ', ':is(:--a, :--b)', 'p', ':--B']
+    for nm in names:
+        for df in defs:
+            out.append((pats[(len(nm) + len(df)) % len(pats)], {nm: df}))
+            out.append((':--a', {nm: df}))
+    for d1 in defs:
+        for d2 in defs[::3]:
+            out.append((':--a', {':--a': d1, ':--b': d2}))
     for _ in range(400 if quick else 20000):
         cm = {}
         for _ in range(rng.randint(1, 3)):
@@ -87,10 +98,14 @@ def run(chk):
     nontriv = set()
     for start in range(0, len(cases), 20000):
         chunk = cases[start:start + 20000]
+        # numbers beyond CPython's int-conversion limit are outside the model: PY outcome only
+        huge = [c for c in chunk if re.search(r'[0-9]{4301,}', c[0])]
+        chunk = [c for c in chunk if not re.search(r'[0-9]{4301,}', c[0])]
         if driver_ok:
             results = parsecorr.run(chunk)
         else:
             results = [(c, parsecorr.py_compile(*c), None, None) for c in chunk]
+        results += [(c, parsecorr.py_compile(*c), None, None) for c in huge]
         for c, py, lean, diff in results:
             if py[0] == 'ok':
                 outcome['compiled'] += 1
@@ -102,6 +117,8 @@ def run(chk):
                 allowed = py[5] in ALLOWED or (py[5] == 'KeyError' and py[1] == 30 and c[1])
                 if not allowed or py[1] in (-1, -2, 99):
                     py_bad.append({'pattern': c[0], 'custom': c[1], 'exception': py[5], 'site': py[1]})
+            if diff and re.search(r'[0-9]{4301,}', c[0]):
+                diff = None      # beyond CPython's int-conversion limit: outside the model (PY outcome is still checked above)
             if diff:
                 corr_bad.append({'pattern': c[0], 'custom': c[1], 'difference': diff, 'py': py if py[0] == 'err' else 'ok',
                                  'model': lean[:3] if lean and lean[0] == 1 else 'ok'})
